@@ -206,6 +206,9 @@ def run_harness(unit, fn, tier='quick', timeout=300, mem_gb=24, default_data=4, 
             us[lname] = 10 if 'memcmp' in lname else 26
     for rf in unit['info'].get('recursive', []):
         us[rf] = recursion
+    # functions reachable through pointers (vtables: destroy, mem_usage, ...) can recurse through indirect calls
+    for rf in unit['info'].get('address_taken', []):
+        us.setdefault(rf, max(recursion, 4))
     for k, v in (unwind_overrides or {}).items():
         for lname in us:
             if re.search(k, lname):
